@@ -53,7 +53,8 @@ def run(ctx):
     mc = open(os.path.join(CFG, 'Session.c19.mc.cfg')).read()
     if quick:
         mc = mc.replace('MaxLen = 5', 'MaxLen = 4')
-    ctx.tlc('Session.c19.mc', 'Session', mc, timeout=900)
+    r = ctx.tlc('Session.c19.mc', 'Session', mc, timeout=900, coverage=True)
+    ctx.extra['design_action_coverage'] = SJ.require_coverage(r, ['New', 'Fit', 'FitRejected', 'Query', 'Sample', 'GetInstance'], ())
     want = []
     for b in B.all_bindings():
         if b.name == 'GaussianMultivariate3cond':
